@@ -327,3 +327,8 @@ Proof.
 Qed.
 Theorem read_events_no_self_deadlock evs : lock_run [] (ops_read_events evs) = Ok [].
 Proof. unfold ops_read_events. cbn [app lock_run existsb]. rewrite lock_run_events. reflexivity. Qed.
+
+Theorem cert_checks_no_panic fc n : forall p, cert_checks fc n <> Panic p.
+Proof. intros p. unfold cert_checks. destruct n as [|n]; cbn; discriminate. Qed.
+Theorem cert_checks_empty fc : cert_checks fc 0 = Err a_decode_error.
+Proof. reflexivity. Qed.
